@@ -721,8 +721,8 @@ def run(ctx):
     if key_table is None:
         key_table = {}
     table_tok = key_table_tokens({k: v for k, v in key_table.items()})
-    nforms = int(os.environ.get('C06_NFORMS', 0)) or (500 if ctx.tier == 'quick' else 12000)
-    nsynth = 3200 if ctx.tier == 'quick' else 40000
+    nforms = int(os.environ.get('C06_NFORMS', 0)) or (500 if ctx.tier == 'quick' else 6000)
+    nsynth = 3200 if ctx.tier == 'quick' else 24000
     seeds = [int(s) for s in ctx.rng.integers(0, 2 ** 31, size=nforms)]
     req, exp, meta = [], [], []
 
